@@ -47,8 +47,12 @@ def main(argv=None) -> int:
 
     prop = args.prop
     if args.replay:
-        with open(args.replay) as fd:
-            data = json.load(fd)
+        try:
+            with open(args.replay) as fd:
+                data = json.load(fd)
+        except (OSError, ValueError) as e:
+            print("ANALYSIS-ERROR cannot read replay file %s: %s" % (args.replay, e))
+            return 2
         prop = data["property"]
         code = run_one(prop, data.get("tier", "quick"))
         # replay succeeded iff the recorded violations are re-derived
